@@ -19,7 +19,7 @@ LEVEL = "exploration"
 EXHAUSTIVE = {"quick": True, "thorough": True}
 RULE = (
     "application with a lenient command, a command with a default sub-command, typed options and a failing handler; a catalogue "
-    "of 22 command lines (valid, missing / surplus argument, unknown option / command, help in its three forms, help with an "
+    "of 25 command lines (valid, missing / surplus argument, unknown option / command, help in its three forms, help with an "
     "ill-typed option, version, empty line, lenient lines). Every history of length 2..L over the catalogue is run on ONE "
     "application and each run compared (status, stdout, stderr, handler arguments) with the same line on a fresh "
     "application; each history is run with fresh RawArgs per run and with the same RawArgs object reused for consecutive "
@@ -29,8 +29,8 @@ RULE = (
     "run before a normal run; distinct by tuple of line ids / (order, customisation)."
 )
 BOUND = {
-    "quick": "all 484 histories of length 2 + 1500 sampled of length 3 x 2 RawArgs modes; 12 style orders; 40 component double renders",
-    "thorough": "all histories of length 2-3 (11132) + 20000 sampled of length 4 x 2 RawArgs modes; 24 orders x 5 customisations; 400 double renders",
+    "quick": "all 625 histories of length 2 + 1500 sampled of length 3 x 2 RawArgs modes; 12 style orders; 40 component double renders",
+    "thorough": "all histories of length 2-3 (16250) + 20000 sampled of length 4 x 2 RawArgs modes; 24 orders x 5 customisations; 400 double renders",
 }
 ASSUMPTIONS = [
     "two runs are equal when status, both streams and the recorded handler invocations (command, arguments, options) are equal",
@@ -40,6 +40,7 @@ LINES = [
     ["one", "x"], ["one", "x", "--num=5"], ["one"], ["one", "x", "y"], ["one", "x", "--bogus"], ["nosuch"], ["help"], ["help", "one"], ["one", "--help"],
     ["one", "x", "--num=bad", "--help"], ["one", "x", "--version"], [], ["len"], ["len", "a", "b", "c"], ["grp", "x"], ["grp"], ["bad"], ["help", "grp"],
     ["many", "a", "--", "-x", "--flag"], ["many", "b", "--flag"], ["many", "c", "--version"], ["many", "--flag", "d", "e"],
+    ["one", "--num=7", "x", "y"], ["one", "x", "--num=8", "--bogus"], ["one", "-V", "x", "--bogus"],
 ]
 
 
@@ -193,7 +194,7 @@ def double_renders(sh, env, n):
         elif kind == 1:
             comp, label = ApplicationHelp(app), "ApplicationHelp"
         elif kind == 2:
-            comp, label = CommandHelp(app.get_command(rng.choice(["one", "len", "grp", "bad"]))), "CommandHelp"
+            comp, label = CommandHelp(app.get_command(["one", "len", "grp", "bad", "many"][(i // 7) % 5])), "CommandHelp"
         elif kind == 3:
             comp, label = Paragraph("lorem ipsum " * rng.randint(1, 40)), "Paragraph"
         elif kind == 4:
